@@ -558,6 +558,14 @@ fn main() -> std::process::ExitCode {
                         c.tx_buf_max = Some(1 << 20);
                     }
                 }
+                4 => {
+                    // the wake-up oracle needs rings that cannot grow: growth adds room outside the
+                    // critical section that takes the writer's waker, so a newer poll can replace
+                    // the waker in between and the older one legitimately stays silent
+                    for c in [&mut ca, &mut cb] {
+                        c.tx_buf_max = c.tx_buf_initial;
+                    }
+                }
                 2 | 3 => {
                     for c in [&mut ca, &mut cb] {
                         c.tx_buf_initial = Some(*rng.pick(&[200usize, 600, 1500]));
